@@ -550,7 +550,8 @@ pub fn corner_of(kt: crate::refimpl::decode::KT, scheme: Scheme, pairs: &Pairs) 
     if kt == crate::refimpl::decode::KT::Comb && scheme == Scheme::Ed {
         if let Some(raw) = pairs.get(&b"secp256k1"[..]) {
             if let Some(s) = rlp::as_str(raw) {
-                if matches!(sig::secp_pub_validity(s), sig::PubValidity::Valid(_)) {
+                // any SEC1 form the k256 back-end (which CombinedKey reads secp256k1 entries with) understands
+                if sig::secp_normalise(s).is_some() && !(s.len() == 65 && s[0] != 4) {
                     return Some("combined-ed25519-signer+valid-secp256k1-entry");
                 }
             }
